@@ -117,14 +117,15 @@ class C04(ProtoSpec):
             binds = [[(X, "A")], [(X, "A"), (X, "B")], [(X, "B"), (Y, "A")], [(X, "A"), (X, "B")]]
             self.driver = Driver(binds, names=("1", "2", "07", "x"), mids=(),
                                  kinds=("bind", "allocate", "claim", "release"),
-                                 release_forms=("bare",), allocate_ranks=(0, "last"), ticks=(E + 2 * P,), max_ticks=1)
+                                 release_forms=("bare",), allocate_ranks=(0, "last"),
+                                 ticks=(E + 2 * P, E + 40.0), max_ticks=1)       # E+40: past expiry, before the next sweep
             self.depth = 6
         else:
             binds = [[(X, "A")], [(X, "A"), (X, "B")], [(X, "B"), (Y, "A")], [(X, "A"), (X, "B")], [(X, "A"), (Y, "A")]]
             self.driver = Driver(binds, names=("1", "2", "9", "10", "05", "x"), mids=(),
                                  kinds=("bind", "allocate", "claim", "release", "close"),
                                  release_forms=("bare",), close_forms=("unopened",), allocate_ranks=(0, "mid", "last"),
-                                 ticks=(E + 2 * P,), max_ticks=1)
+                                 ticks=(E + 2 * P, E + 40.0), max_ticks=2)
             self.depth = 8
 
     def enabled(self, worlds, mon):
